@@ -73,24 +73,32 @@ class FT:
         pos = fqn.rfind(".")
         return None if pos < 0 else fqn[:pos]
 
-    def oracle2(self, pidx, fqn):
-        """what findTypeNoCache computes for the package `pidx` (-1: nil) and the name: the type string or None"""
+    def dep(self, pidx, fqn):
+        """what findDependency + the scope lookup give for the package `pidx` (-1: nil): ("nodep",) when the name's
+        package is not among its dependencies, ("dep", type string or None) otherwise"""
         path = self.path(fqn)
-        if path is None or fqn not in self.host:
+        if path is None or pidx < 0 or path not in self.deps[self.targets[pidx]]:
+            return ("nodep",)
+        return ("dep", self.host.get(fqn))
+
+    def imp(self, fqn):
+        """what the engine's importer + the scope lookup give for the name (independent of the calling package)"""
+        path = self.path(fqn)
+        if path is None or not self.importable.get(path):
             return None
-        if pidx >= 0 and path in self.deps[self.targets[pidx]]:
-            return self.host[fqn]
-        if self.importable.get(path):
-            return self.host[fqn]
-        return None
+        return self.host.get(fqn)
+
+    def oracle2(self, pidx, fqn):
+        """the lone answer for a name that is not in the initial cache"""
+        d = self.dep(pidx, fqn)
+        return d[1] if d[0] == "dep" else self.imp(fqn)
 
     def contexts(self):
         return [-1] + list(range(len(self.targets)))
 
     def masked(self, pidx, fqn, observed_type):
-        """guard of the known finding: nobody can resolve the name for this package (the engine's importer cannot
-        import its package and the checked package does not depend on it), yet an answer came out of the cache that
-        another package's run put there"""
+        """shape of the defect fixed in /repo (engine-wide caching of dependency-resolved types): nobody can resolve
+        the name for this package, yet an answer came out of the cache that another package's run put there"""
         path = self.path(fqn)
         if path is None or observed_type is None:
             return False
@@ -136,16 +144,18 @@ def run(c):
         "the API contract that Load/LoadFromIR/NewEngine/InferBuildContext do not run concurrently with Run (their roots are exempt)",
         "per-run ownership of RunnerState / rulesRunner instances is by construction in newRulesRunner (one per RunContext); the "
         "write-site scan classifies by static owner type, element writes through local slice/map variables are listed as local-ref",
-        "Section hypothesis of findtype_linearizable: the importer oracle is a deterministic function of the name (checked "
-        "empirically: the faithful context-dependent model run_dep is what is compared with the implementation)",
+        "hypotheses of findtype_linearizable / history_independent: the importer is a deterministic function of the name, and where "
+        "the dependencies of the checked package and the importer both resolve a name they yield the same type (same source; "
+        "checked on the tables of every correspondence case and, for the implementation, through xtypes identity with the host's "
+        "type: same_as_host)",
         "harness/cmd/c08 (built with -race), hook ruleguard.VerifFindType / VerifTypeCache / VerifPkgCache, the Go race detector",
     ]
     c.notes += [
         "real schedules are explored (race detector + comparison with the sequential baseline), not proved; the theorems are about "
         "the lock protocol as extracted from the source, not about the Go memory model",
-        "known finding %s: the type cache is keyed by the name alone although a miss is resolved relative to the package being "
-        "checked; a name only that package's dependencies can resolve is answered from the cache for other packages, whose lone "
-        "run panics in GetType" % FINDING,
+        "defect fixed in /repo (was known finding %s): dependency-resolved types were cached engine-wide under the bare name, so a "
+        "warm cache answered for packages whose lone run panics in GetType; the guard `masked` stays as the description of that "
+        "shape, nothing is suppressed any more" % FINDING,
     ]
 
     # a private translator binary (main.go + leaf.go + c15.go + locks.go): other families' generators cannot break it
@@ -311,18 +321,26 @@ def run(c):
             ft.k(f)
             if t is not None:
                 ft.v(t)
-        otab = []
+        dtab, itab = [], []
         for f in list(ft.kidx):
+            t = ft.imp(f)
+            if t is not None:
+                itab.append("(%d, %d)" % (ft.k(f), ft.v(t)))
             for p in ft.contexts():
-                t = ft.oracle2(p, f)
-                if t is not None:
-                    otab.append("(%d, %d, %d)" % (p + 1, ft.k(f), ft.v(t)))
+                d = ft.dep(p, f)
+                if d[0] == "dep":
+                    dtab.append("(%d, %d, %s)" % (p + 1, ft.k(f), opt(None if d[1] is None else ft.v(d[1]))))
         src = [COQ_PRE,
-               "Definition otab : list (N * N * N) := [%s]." % "; ".join(otab),
-               "Definition orc (p k : N) : option N := option_map (fun e : N * N * N => snd e) "
-               "(find (fun e : N * N * N => (fst (fst e) =? p) && (snd (fst e) =? k)) otab).",
+               "Definition itab : list (N * N) := [%s]." % "; ".join(itab),
+               "Definition dtab : list (N * N * option N) := [%s]." % "; ".join(dtab),
+               "Definition imp (k : N) : option N := lookup N.eqb k itab.",
+               "Definition dep (p k : N) : option (option N) := option_map (fun e : N * N * option N => snd e) "
+               "(find (fun e : N * N * option N => (fst (fst e) =? p) && (snd (fst e) =? k)) dtab).",
+               # the hypothesis of history_independent / findtype_linearizable, checked on the tables
+               "Definition consistentb : bool := forallb (fun e : N * N * option N => match imp (snd (fst e)) with "
+               "None => true | Some v => oeqb (snd e) (Some v) end) dtab.",
                "Definition valid_entry (c0 : list (N * N)) (e : N * N) : bool := oeqb (lookup N.eqb (fst e) c0) (Some (snd e)) || "
-               "existsb (fun t : N * N * N => (snd (fst t) =? fst e) && (snd t =? snd e)) otab."]
+               "oeqb (imp (fst e)) (Some (snd e))."]
         res_items = []
         for name, kind, ops, obs, c0, c1, _ in cases:
             cc0 = "; ".join("(%d, %d)" % (ft.k(k), ft.v(t)) for k, t in zip(c0["keys"], c0["types"]))
@@ -333,17 +351,17 @@ def run(c):
             src.append("Definition %s_obs : list (option N) := [%s]." % (name, "; ".join(opt(None if t is None else ft.v(t)) for t in obs)))
             if kind == "seq":
                 # model run vs observed results; model cache vs observed cache (both inclusions); lone answers vs observed
-                src.append("Definition %s_res := let m := run_dep N.eqb orc %s_c0 %s_ops in "
-                           "(mism 0 (fst m) %s_obs, cache_sub (snd m) %s_c1 && cache_sub %s_c1 (snd m), "
-                           "mism 0 (map (lone N.eqb orc %s_c0) %s_ops) %s_obs)." % ((name,) * 9))
+                src.append("Definition %s_res := let m := run_dep N.eqb imp dep %s_c0 %s_ops in "
+                           "(mism 0 (fst m) %s_obs, consistentb && cache_sub (snd m) %s_c1 && cache_sub %s_c1 (snd m), "
+                           "mism 0 (map (lone N.eqb imp dep %s_c0) %s_ops) %s_obs)." % ((name,) * 9))
             else:
                 # any interleaving: initial entries kept, only valid entries added, every success is in the cache;
                 # lone answers vs observed
                 src.append("Definition %s_res := "
-                           "(@nil N, cache_sub %s_c0 %s_c1 && forallb (valid_entry %s_c0) %s_c1 && "
-                           "forallb (fun x : (N * N) * option N => match snd x with None => true | Some v => "
-                           "oeqb (lookup N.eqb (snd (fst x)) %s_c1) (Some v) end) (combine %s_ops %s_obs), "
-                           "mism 0 (map (lone N.eqb orc %s_c0) %s_ops) %s_obs)." % ((name,) * 11))
+                           "(@nil N, consistentb && cache_sub %s_c0 %s_c1 && forallb (valid_entry %s_c0) %s_c1 && "
+                           "forallb (fun x : (N * N) * option N => match snd x, dep (fst (fst x)) (snd (fst x)) with "
+                           "Some v, None => oeqb (lookup N.eqb (snd (fst x)) %s_c1) (Some v) | _, _ => true end) (combine %s_ops %s_obs), "
+                           "mism 0 (map (lone N.eqb imp dep %s_c0) %s_ops) %s_obs)." % ((name,) * 11))
             res_items.append(name)
         src.append("Definition RES := Eval vm_compute in [%s]." % "; ".join("%s_res" % n for n in res_items))
         src.append("Print RES.")
